@@ -221,7 +221,18 @@ template <class S, std::size_t N> void pos_range_sub()
             for (std::size_t i = 0; i < N; ++i)
               want[i] = sp[i] - mn[i];
           A3 const got = comps<N>(g::range_dim(fmin, fsup), 0);
-          VRT_CHECK(got == want, fnd + ":wrong", "got %s want %s", show(N, got).c_str(), show(N, want).c_str());
+          if (nonempty)
+            VRT_CHECK(got == want, fnd + ":wrong", "got %s want %s", show(N, got).c_str(), show(N, want).c_str());
+          else
+          {
+            // "The dimension of the range": an empty range has no positions, so the dimension must denote zero cells;
+            // that it is the all-zero dimension is how the code does it, not documented: information only
+            bool any_zero = false;
+            for (std::size_t i = 0; i < N; ++i)
+              any_zero = any_zero || got[i] == 0;
+            VRT_CHECK(any_zero, fnd + ":empty_range_not_empty", "empty range has dimension %s", show(N, got).c_str());
+            info_check(got == want, fnd + ":empty_range_not_null");
+          }
         }
         if (vrt::begin_text(fns.c_str(), fns + descr))
         {
